@@ -41,6 +41,7 @@ Do(ev) ==
     [] ev.e = "IterNext" -> IterNext
     [] ev.e = "IterInsert" -> IterInsert(ev.a[1])
     [] ev.e = "IterRemove" -> IterRemove
+    [] ev.e = "Relocate" -> Relocate(ev.a[1])
     [] OTHER -> FALSE
 
 TraceInit == Init /\ ti = 1
